@@ -13,7 +13,8 @@ import (
 // fields, pointers, interfaces, maps and slices) is replaced by an equal slice with len < cap and a
 // sentinel in the spare part; slices which are neighbours in the data model (several slice fields
 // of the same type in one struct: Backtrack/Input/Lookahead, parallel arrays) are cut from ONE
-// backing array, one after the other, so that an append to the first overwrites the second.  The
+// backing array, one after the other (the first field in second place), so that an append to one
+// of them overwrites a neighbour.  The
 // font value is equal to the original one for every reader; an `append(shared, ...)` anywhere in
 // the library is now a write into memory that belongs to the font, and the fingerprints (which
 // cover s[:cap(s)]) see it although no length changes.
@@ -129,6 +130,9 @@ func (s *sparer) walk(v reflect.Value, depth int) {
 				done[i] = true
 				continue
 			}
+			// in the array the first field comes second: [Input | Backtrack | Lookahead | spare], so that
+			// an append to the first field runs over a neighbour with other contents
+			group[0], group[1] = group[1], group[0]
 			total := 0
 			for _, j := range group {
 				total += v.Field(j).Len()
